@@ -6,6 +6,8 @@ import (
 	"fmt"
 	"math"
 	"net"
+	"os"
+	"path"
 	"strconv"
 	"strings"
 	"time"
@@ -13,6 +15,7 @@ import (
 	"github.com/youzan/ZanRedisDB/common"
 	"github.com/youzan/ZanRedisDB/node"
 	"github.com/youzan/ZanRedisDB/rockredis"
+	"github.com/youzan/ZanRedisDB/server"
 	"verif/harness/internal/srv"
 )
 
@@ -175,9 +178,9 @@ func freeBase(port int) int {
 	return port
 }
 
-func startNode(port int, engine string) (*liveNode, error) {
+func startNode(port int, engine, policy string) (*liveNode, error) {
 	port = freeBase(port)
-	inst, err := srv.Start(port, NS, 1, engine)
+	inst, err := startServer(port, NS, engine, policy)
 	if err != nil {
 		return nil, err
 	}
@@ -403,4 +406,55 @@ func (ln *liveNode) send(args [][]byte) (obs nodeObs, before, after dumpT) {
 		obs.verdict = "noprop"
 	}
 	return
+}
+
+// startServer is srv.Start for one partition with a chosen expiration policy of the namespace.
+func startServer(portBase int, ns string, engine string, policy string) (*srv.Inst, error) {
+	if policy == "" || policy == common.DefaultExpirationPolicy {
+		return srv.Start(portBase, ns, 1, engine)
+	}
+	tmpDir, err := os.MkdirTemp("", "verif-srv-")
+	if err != nil {
+		return nil, err
+	}
+	os.WriteFile(path.Join(tmpDir, "myid"), []byte("1"), common.FILE_PERM)
+	raftAddr := fmt.Sprintf("http://127.0.0.1:%d", portBase+2)
+	opts := server.ServerConfig{
+		ClusterID: "verif-" + ns, DataDir: tmpDir, RedisAPIPort: portBase, HttpAPIPort: portBase + 1,
+		LocalRaftAddr: raftAddr, BroadcastAddr: "127.0.0.1", TickMs: 50, ElectionTick: 5,
+	}
+	opts.RocksDBOpts.EngineType = engine
+	kv, err := server.NewServer(opts)
+	if err != nil {
+		return nil, err
+	}
+	inst := &srv.Inst{S: kv, Port: portBase, Dir: tmpDir, NS: ns, PartNum: 1}
+	var replica node.ReplicaInfo
+	replica.NodeID = 1
+	replica.ReplicaID = 1
+	replica.RaftAddr = raftAddr
+	nsConf := node.NewNSConfig()
+	nsConf.Name = ns + "-0"
+	nsConf.BaseName = ns
+	nsConf.EngType = rockredis.EngType
+	nsConf.PartitionNum = 1
+	nsConf.Replicator = 1
+	nsConf.ExpirationPolicy = policy
+	nsConf.DataVersion = common.ValueHeaderV1Str // wait_compact needs the value header
+	nsConf.RaftGroupConf.GroupID = 1000
+	nsConf.RaftGroupConf.SeedNodes = append(nsConf.RaftGroupConf.SeedNodes, replica)
+	n, err := kv.InitKVNamespace(1, nsConf, false)
+	if err != nil {
+		return nil, err
+	}
+	inst.Nodes = append(inst.Nodes, n)
+	kv.Start()
+	deadline := time.Now().Add(20 * time.Second)
+	for !n.Node.IsLead() {
+		if time.Now().After(deadline) {
+			return nil, fmt.Errorf("inconclusive: leader not elected in time")
+		}
+		time.Sleep(50 * time.Millisecond)
+	}
+	return inst, nil
 }
